@@ -301,6 +301,31 @@ pub fn run(ctx: &mut Ctx) {
         let prog = ProgGen::new(&mut rng, cfg).gen_program();
         sim_dedup(ctx, &prog, format!("hostile#{case}"));
     }
+    // hand-written families and two-versions pairs (see families.rs)
+    for (i, (what, prog)) in families_gallery().into_iter().enumerate() {
+        if ctx.mine(i as u64) {
+            sim_dedup(ctx, &prog, format!("families-gallery#{i}: {what}"));
+        }
+    }
+    for (i, (what, p1, p2)) in versions_gallery().into_iter().enumerate() {
+        if !ctx.mine(i as u64) {
+            continue;
+        }
+        for flip in [false, true] {
+            let (pa, pb) = if flip { (&p2, &p1) } else { (&p1, &p2) };
+            let (o1, o2) = (sim::simulate(pa), sim::simulate(pb));
+            let merged = merge(&o1.registry, &o2.registry);
+            let off = o1.registry.types.len() as u32;
+            let mut noncf: BTreeSet<u32> = sim::coincidences(pa, &o1);
+            noncf.extend(sim::coincidences(pb, &o2).iter().map(|i| *i + off));
+            let label = format!("two-versions-gallery#{i}{}: {what}", if flip { " (flipped)" } else { "" });
+            let c = DedupCase { reg: &merged, noncf: &noncf, wrappers: &Default::default(), inst_of: None, label: label.clone(), source: None };
+            ctx.begin_case(&label);
+            let nt = judge(ctx, &c);
+            ctx.case(reg::fingerprint(&merged), nt);
+            ctx.count("gallery_cases", 1);
+        }
+    }
     let n_d = ctx.tier.pick(1500u64, 40_000u64);
     for case in 0..n_d {
         if !ctx.mine(case) {
